@@ -355,9 +355,10 @@ class WFile:
         return len(data)
 
     def _drain(self):
-        while self.buf:
-            n = os.write(self.fd, self.buf)
-            self.buf = self.buf[n:]
+        with self.world.own():
+            while self.buf:
+                n = os.write(self.fd, self.buf)
+                self.buf = self.buf[n:]
 
     def flush(self):
         self.world.step("flush", self.path)
@@ -372,8 +373,10 @@ class WFile:
             return
         self.world.step("close", self.path)
         self._drain()
-        os.close(self.fd)
+        with self.world.own():
+            os.close(self.fd)
         self.world.open_fds.discard(self.fd)
+        self.world.tmp_fd.pop(self.fd, None)
         self.closed = True
         self.world.snap()
 
@@ -400,8 +403,9 @@ class FsWorld:
         self.sched = None
         self.log = []             # [call, "step name" | "kill", snapshot of the directory after it]
         self.open_fds = set()
-        self.tmp_fd = {}          # fd from mkstemp -> path
+        self.tmp_fd = {}          # fd from mkstemp / os.open -> path
         self.tmp_owner = {}       # temporary path -> call number
+        self.inside = threading.local()   # set while the harness itself calls a primitive (tempfile.mkstemp uses os.open, WFile uses os.write/os.close)
 
     # -- bookkeeping
     def register(self, tid):
@@ -425,6 +429,17 @@ class FsWorld:
                         out[n] = f.read()
         return out
 
+    def busy(self):
+        return getattr(self.inside, "n", 0) > 0
+
+    @contextlib.contextmanager
+    def own(self):
+        self.inside.n = getattr(self.inside, "n", 0) + 1
+        try:
+            yield
+        finally:
+            self.inside.n -= 1
+
     def step(self, name, path=None):
         tid = self.tid_of.get(threading.get_ident())
         if tid is None:
@@ -447,9 +462,42 @@ class FsWorld:
     def __enter__(self):
         import pathlib, tempfile, io
         w = self
-        self._saved = (builtins.open, io.open, pathlib.Path.exists, tempfile.mkstemp, os.fdopen, os.fsync, os.replace, os.rename, os.unlink, os.remove)
-        o_open, o_ioopen, o_exists, o_mkstemp, o_fdopen, o_fsync, o_replace, o_rename, o_unlink, o_remove = self._saved
+        self._saved = (builtins.open, io.open, pathlib.Path.exists, tempfile.mkstemp, os.fdopen, os.fsync, os.replace, os.rename, os.unlink, os.remove,
+                       os.open, os.write, os.close)
+        o_open, o_ioopen, o_exists, o_mkstemp, o_fdopen, o_fsync, o_replace, o_rename, o_unlink, o_remove, o_osopen, o_oswrite, o_osclose = self._saved
         self._orig_open = o_open
+
+        def p_osopen(path, flags, *a, **k):
+            """os.open on the cache directory (an implementation may bypass open()/mkstemp): a step like the others, the
+            descriptor is tracked so that os.fdopen / os.write / os.fsync / os.close on it are steps too."""
+            if w.busy() or isinstance(path, int) or not w.mine(path) or not (flags & (os.O_WRONLY | os.O_RDWR)):
+                return o_osopen(path, flags, *a, **k)
+            existed = os.path.exists(os.fspath(path))
+            w.step("opentrunc" if (flags & os.O_TRUNC or not existed) else "openwrite", path)
+            with w.own():
+                fd = o_osopen(path, flags, *a, **k)
+            w.tmp_fd[fd] = os.fspath(path)
+            w.open_fds.add(fd)
+            w.snap()
+            return fd
+
+        def p_oswrite(fd, data):
+            if w.busy() or fd not in w.tmp_fd:
+                return o_oswrite(fd, data)
+            w.step("flush", w.tmp_fd[fd])          # an unbuffered write reaches the file at once: what flush is for a buffered one
+            with w.own():
+                n = o_oswrite(fd, data)
+            w.snap()
+            return n
+
+        def p_osclose(fd):
+            if w.busy() or fd not in w.tmp_fd:
+                return o_osclose(fd)
+            w.step("close", w.tmp_fd[fd])
+            with w.own():
+                o_osclose(fd)
+            w.tmp_fd.pop(fd, None); w.open_fds.discard(fd)
+            w.snap()
 
         def p_open(file, mode="r", *a, **k):
             if isinstance(file, int) or not w.mine(file):
@@ -464,7 +512,8 @@ class FsWorld:
                 return io.BytesIO(data)
             if "w" in mode and "+" not in mode:
                 w.step("opentrunc", file)
-                fd = os.open(os.fspath(file), os.O_WRONLY | os.O_CREAT | os.O_TRUNC, 0o666)
+                with w.own():
+                    fd = os.open(os.fspath(file), os.O_WRONLY | os.O_CREAT | os.O_TRUNC, 0o666)
                 w.snap()
                 return WFile(w, fd, os.fspath(file))
             raise RuntimeError("harness: open mode %r on the profile cache is not modelled" % mode)
@@ -482,7 +531,8 @@ class FsWorld:
             if d is None or not w.mine(d):
                 return o_mkstemp(*a, **k)
             w.step("mkstemp", d)
-            fd, name = o_mkstemp(*a, **k)
+            with w.own():
+                fd, name = o_mkstemp(*a, **k)
             w.tmp_fd[fd] = name
             w.tmp_owner[os.path.basename(name)] = w.tid_of[threading.get_ident()]
             w.open_fds.add(fd)
@@ -526,11 +576,13 @@ class FsWorld:
         os.fdopen = p_fdopen; os.fsync = p_fsync
         os.replace = p_replace; os.rename = p_replace
         os.unlink = p_unlink; os.remove = p_unlink
+        os.open = p_osopen; os.write = p_oswrite; os.close = p_osclose
         return self
 
     def __exit__(self, *a):
         import pathlib, tempfile, io
-        (builtins.open, io.open, pathlib.Path.exists, tempfile.mkstemp, os.fdopen, os.fsync, os.replace, os.rename, os.unlink, os.remove) = self._saved
+        (builtins.open, io.open, pathlib.Path.exists, tempfile.mkstemp, os.fdopen, os.fsync, os.replace, os.rename, os.unlink, os.remove,
+         os.open, os.write, os.close) = self._saved
         for fd in list(self.open_fds):          # descriptors of killed calls: closed by the OS, nothing flushed
             try:
                 os.close(fd)
@@ -538,3 +590,67 @@ class FsWorld:
                 pass
         self.open_fds.clear()
         return False
+
+
+# ------------------------------------------------------------------ C15: real process death (no exception, no handler, no flush)
+DEATH_NAMES = {"open", "fdopen", "mkstemp", "write", "writelines", "flush", "fsync", "fdatasync", "close", "__exit__", "replace", "rename",
+               "truncate", "ftruncate", "unlink", "remove", "link", "symlink", "write_bytes", "write_text", "copyfile", "move", "sendfile"}
+
+
+def death_child(argfile):
+    """runs in a SUBPROCESS: one request_profile against a fake server that answers with the given document; after the answer
+    is in, the process os._exit()s right after the k-th return of a C-level file primitive (counted with sys.setprofile, so
+    whatever route the implementation takes to the disk is seen).  Nothing buffered is flushed, no except/finally/atexit runs."""
+    import json
+    a = json.load(open(argfile))
+    for k_, v in a["env"].items():
+        os.environ[k_] = v
+    L = lib()
+    set_datadir(a["datadir"])
+    body = open(a["body_file"], "rb").read()
+    st = {"armed": False, "n": 0, "names": []}
+
+    def on_disk(arg):
+        """a C function of the os / io modules, or a method of a real file object (not of a str, a BytesIO, a tree builder ...)"""
+        o = getattr(arg, "__self__", None)
+        if isinstance(o, types.ModuleType):
+            return o.__name__ in ("posix", "nt", "os", "_io", "io", "_posixshmem", "fcntl", "mmap")
+        return isinstance(o, io.IOBase) and not isinstance(o, (io.BytesIO, io.StringIO))
+
+    def prof(frame, event, arg):
+        if st["armed"] and event == "c_return":
+            nm = getattr(arg, "__name__", "")
+            if nm in DEATH_NAMES and on_disk(arg):
+                st["names"].append(nm)
+                if st["n"] == a["k"]:
+                    os.write(1, ("DIED after %d:%s\n" % (st["n"], nm)).encode())
+                    os._exit(77)
+                st["n"] += 1
+
+    def responder(rq):
+        st["armed"] = True
+        return Resp(body=body)
+    of = lambda n, pre: None if n is None else "%s%d" % (pre, n)
+    cl = L.OFXClient(a["url"], org=of(a["cfg"][1], "ORG"), fid=of(a["cfg"][2], "FID"))
+    with FakeNet(responder):
+        sys.setprofile(prof)
+        try:
+            cl.request_profile()
+        finally:
+            sys.setprofile(None)
+    os.write(1, ("COMPLETED %d primitives: %s\n" % (st["n"], ",".join(st["names"]))).encode())
+    os._exit(0)
+
+
+def run_death_child(args, workdir):
+    """-> (exit code, stdout) of the child."""
+    import json, subprocess
+    os.makedirs(workdir, exist_ok=True)
+    af = os.path.join(workdir, "death-args.json")
+    with open(af, "w") as f:
+        json.dump(args, f)
+    tools = os.path.dirname(os.path.dirname(os.path.abspath(__file__)))
+    code = "import sys; sys.path.insert(0, %r); from ofxv import client_harness as H; H.death_child(sys.argv[1])" % tools
+    env = dict(os.environ, PYTHONHASHSEED="0", PYTHONDONTWRITEBYTECODE="1", OFXV_REPO=C.REPO)
+    p = subprocess.run([C.PY, "-c", code, af], stdout=subprocess.PIPE, stderr=subprocess.STDOUT, env=env, timeout=120)
+    return p.returncode, p.stdout.decode("utf-8", "replace")
